@@ -63,6 +63,7 @@ func genRace(r *Rng, tier string, p *Plan) {
 		n = r.Range(5, 80)
 	}
 	now := int64(0)
+	lastEnv := int64(-1_000_000)
 	if r.Bool(0.4) {
 		// relief on from the start on some node, so that most of the traffic
 		// there takes the stress path
@@ -82,7 +83,20 @@ func genRace(r *Rng, tier string, p *Plan) {
 		case 3:
 			p.Add(Op{K: "query", At: now, I: nd, S: PickOf(r, "/alive", "/ready", "/version", "/query/trace/abc", "/query/allrules/json", "/query/rules/json/ds0")})
 		default:
-			p.Add(Op{K: "ev", At: now, I: nd, J: int64(r.Intn(6)), N: int64(i), S: PickOf(r, "json", "msgpack"), T: PickOf(r, "batch", "batch", "event"), M: int64(r.Intn(4)), B: r.Bool(0.1)})
+			// bodies travel plain or zstd-compressed (now and then one that does not
+			// decode); some requests carry an environment key, whose lookup takes a
+			// while, so that a handler is in progress while others come and go
+			op := Op{K: "ev", At: now, I: nd, J: int64(r.Intn(6)), N: int64(i), S: PickOf(r, "json", "msgpack", "json", "msgpack", "json+zstd", "msgpack+zstd", "json+zstdbad"), T: PickOf(r, "batch", "batch", "event", "batch|env"), M: int64(r.Intn(4)), B: r.Bool(0.1)}
+			if op.T == "batch|env" {
+				// one lookup at a time: a second one would wait on the environment
+				// cache's mutex, which a bubble cannot see as idle
+				if now < lastEnv+300_000 {
+					op.T = "batch"
+				} else {
+					lastEnv = now
+				}
+			}
+			p.Add(op)
 		}
 	}
 	if r.Bool(0.5) {
@@ -128,22 +142,29 @@ func raceSite(rep string) (site string, harnessOnly bool) {
 	parts := regexp.MustCompile(`(?m)^(Previous (read|write)|Read|Write) at `).Split(rep, -1)
 	var tops []string
 	nRefinery := 2
+	harnessTops := 0
 	for _, part := range parts[1:] {
 		// only the access stack, not the "Goroutine N created at" parts
 		if i := strings.Index(part, "Goroutine "); i >= 0 {
 			part = part[:i]
 		}
 		top, first := "", ""
+		topIsHarness := false
 		for _, line := range strings.Split(part, "\n") {
 			l := strings.TrimSpace(line)
 			if first == "" && strings.Contains(l, "(") && !strings.HasPrefix(l, "/") && !strings.HasPrefix(l, "runtime.") && strings.Contains(l, ".") && !strings.Contains(l, " ") {
 				first = l[:strings.LastIndex(l, "(")]
+				topIsHarness = strings.Contains(first, "/verifsim.")
 			}
 			if strings.HasPrefix(l, "github.com/honeycombio/refinery/") && !strings.Contains(l, "/verifsim.") {
 				top = l[:strings.LastIndex(l, "(")]
 				top = strings.TrimPrefix(top, "github.com/honeycombio/refinery/")
 				break
 			}
+		}
+		if topIsHarness {
+			// the racing access itself is harness code, whoever called it
+			harnessTops++
 		}
 		if top == "" {
 			nRefinery--
@@ -152,7 +173,7 @@ func raceSite(rep string) (site string, harnessOnly bool) {
 		}
 		tops = append(tops, top)
 	}
-	if len(tops) < 2 || nRefinery <= 0 {
+	if len(tops) < 2 || nRefinery <= 0 || harnessTops == 2 {
 		return "", true
 	}
 	sort.Strings(tops)
@@ -205,7 +226,16 @@ func runRace(t *testing.T, p *Plan) *Outcome {
 						tid = traceIDFor(p.Seed, int(op.J))
 					}
 					ev := &bEvent{marker: fmt.Sprintf("m%d", op.N), traceID: tid, root: op.M == 3, rate: 1, ts: time.Unix(1700000000, 0).UTC(), fields: map[string]any{"f1": "x"}}
-					req := &bRequest{id: op.ID, node: int(op.I), peer: op.B, endpoint: op.T, enc: op.S, apiKey: legacyKey, dataset: "ds0", events: []*bEvent{ev}}
+					enc, comp, _ := strings.Cut(op.S, "+")
+					if comp == "zstdbad" {
+						comp = "zstd_bad"
+					}
+					ep, env, _ := strings.Cut(op.T, "|")
+					key := legacyKey
+					if env == "env" {
+						key = fmt.Sprintf("hcxik_%058d", op.ID%3) // environment-scoped ingest key shape; a few distinct ones
+					}
+					req := &bRequest{id: op.ID, node: int(op.I), peer: op.B, endpoint: ep, enc: enc, apiKey: key, dataset: "ds0", events: []*bEvent{ev}, compress: comp}
 					if tid != "" && n.sr.Stressed() {
 						out.Probe("race_run_span_under_stress")
 					}
@@ -245,7 +275,9 @@ func runRace(t *testing.T, p *Plan) *Outcome {
 					hreq, _ := http.NewRequest("GET", "http://refinery.sim"+op.S, nil)
 					hreq.Header.Set("X-Honeycomb-Refinery-Query", "tok")
 					hreq.RemoteAddr = "client:1"
-					n.inflight.Add(1)
+					if !n.admit() {
+						return
+					}
 					go func() {
 						n.app.IncomingRouter.VerifHandler().ServeHTTP(newRespRec(), hreq)
 						n.inflight.Done()
